@@ -14,6 +14,8 @@ def classify(r: dict) -> str:
         if "bool-literal" in f:
             return f"{fam}: boolean literal compared by spelling (TRUE/True -> false)"
         return f"{fam}: keyword spelling changes the program"
+    if "literal values that compare equal" in what:
+        return f"{fam}: literals with equal values are confused (filter accepted only with other literal values)"
     m = re.search(r"no such function: (\w+)", what)
     if m:
         return f"{fam}: emits {m.group(1)}() which this SQLite does not have"
